@@ -280,6 +280,9 @@ def gen_job(seed, profile="general"):
         doc["newton"]["maxiter"] = r.choice([4, 8, 12, 25])
     doc["knobs"] = {"verbose": r.choice([False, False, False, 2, 2, True]), "clock": r.choice(["normal", "skew", "jump", "backwards", "frozen"]), "clock_seed": r.randrange(1000)}
     doc["faults"] = []
+    if r.random() < 0.08:
+        # another model of the same kind was post-processed earlier in the process
+        doc["prelude"] = [r.choice(["extrapolate", "extrapolate", "project"])]
     return doc
 
 
